@@ -1,5 +1,6 @@
 import Ts.Lemmas.C19
 import Ts.Lemmas.C19b
+import Ts.Lemmas.C19c
 import Ts.Props.C03
 import Ts.Props.C06
 /-!
@@ -24,7 +25,27 @@ model-level facts that make its behaviour predictable.
   measure stays below the constant `RETAINED_MAX`.
 * `quiescent_step`, `steady_step_alloc_free`, `steady_state_no_alloc`, `steady_state_all_pushes`:
   once every PID has a handler and the tables are stable, no dispatcher step constructs a handler,
-  grows the table, writes a reassembly buffer or queues a change.
+  grows the table, writes a reassembly buffer or queues a change.  These are statements about the
+  DIFFERENCE between the state before and after a step (`stepAllocFree`).
+* `section_in_pushed_buffer`: an in-place section delivery is a window of the buffer passed to
+  `push` (composition of `single_packet_section_in_place` with `frame`).
+* `changes_per_step_bounded`, `chg_high_water_bounded`, `retained'_bounded`: no packet queues more
+  than `CHG_MAX = 1012` changes, so the measure `retained'` that also counts the `FilterChangeset`
+  is bounded by a constant.
+* `mayAlloc`, `mayAlloc_false_step`, `steady_state_no_mayAlloc`: an operation-level predicate on
+  the INPUTS of a step (does it reach construct / a buffer-layer write / a section callback / a
+  scripted change?), its meaning in the model, and: it is `false` for every step of a steady push.
+* §6 restates every definition a reader has to trust (`Bounded`, `retained`, `SteadyPk`,
+  `RepeatPkt`, `StartedHere`, …) as plain statements, and relates `Quiescent`/`RepeatPkt` to the
+  C10 versions.
+* `steady_state_instance`: the hypotheses of `steady_state_no_alloc`, `steady_state_all_pushes`,
+  `retained_bounded` hold on a concrete run (PES packet + PAT repetition + PMT repetition in one
+  push), checked by kernel evaluation.
+
+What is NOT proved here (declared partial): addresses and the allocator.  `inplace`, event ranges
+and "no buffer write" are properties of the MODEL; that the Rust code copies nothing and calls
+the allocator only where the model has one of the operations above is observed by the harness
+(slice-address check, counting `#[global_allocator]`), not proved.
 -/
 namespace Ts.Props.C19
 open Ts Ts.Demux Ts.Lemmas.C19
@@ -271,6 +292,67 @@ theorem wellformed_in_place_iff_fits_first (kind : Kind) (S : Bytes) (hS : WellF
     · simp [e]
     · simp only [e, if_false, true_iff]; omega
 
+/-- **C19 (b), lifted to the pushed buffer.**  For every packet `pk` that `push(buf)` iterates
+over (`frame buf base = .ok pks`, `pk ∈ pks`; `base` = bytes pushed before this call), every
+whole-section chain (`CfgOk`), every state satisfying the C03 invariant: each delivery `d` of
+`Psi.consume cfg s pk.bytes` that is flagged in place (`d.inplace = some o`) satisfies, with
+`pk.off = base + 188 * k`: `5 ≤ o`, `o + d.bytes.length ≤ 188` (inside the packet),
+`d.bytes.length = 3 + section_length`, the global range `[pk.off + o, pk.off + o + d.bytes.length)`
+lies in `[base, base + buf.length)`, and the delivered bytes ARE the window of the caller's
+buffer at `188 * k + o` (and of the packet at `o`).  Which deliveries are in place is characterised
+by `inplace_iff_started_here` / `section_fitting_first_packet_delivered_in_place`. -/
+theorem section_in_pushed_buffer (buf : Bytes) (base : Nat) (pks : List Pk)
+    (hf : frame buf base = .ok pks) (pk : Pk) (hpk : pk ∈ pks)
+    (cfg : Psi.Cfg) (hc : CfgOk cfg) (s : Psi.St) (hs : PsiInv (kindOf cfg) s)
+    (s' : Psi.St) (ds : List Psi.Delivery) (h : Psi.consume cfg s pk.bytes = .ok (s', ds)) :
+    ∀ d ∈ ds, ∀ o, d.inplace = some o →
+      ∃ k, pk.off = base + 188 * k
+        ∧ 5 ≤ o ∧ o + d.bytes.length ≤ 188 ∧ d.bytes.length = 3 + hdrLen d.bytes
+        ∧ base ≤ pk.off + o ∧ pk.off + o + d.bytes.length ≤ base + buf.length
+        ∧ d.bytes = (pk.bytes.drop o).take d.bytes.length
+        ∧ d.bytes = (buf.drop (188 * k + o)).take d.bytes.length := by
+  obtain ⟨h1, h2, h3, h4, h5, _⟩ := frame_pk_props buf base pks hf pk hpk
+  intro d hd o ho
+  obtain ⟨q, hq, hcase⟩ := single_packet_section_in_place cfg hc s hs pk.bytes h5 s' ds h d hd
+  have hsz := Lemmas.C03.plOf_size pk.bytes h5 q hq
+  rcases hcase with ⟨_, _, hin, hb, hle, hlen⟩ | ⟨_, hn⟩
+  · rw [hin] at ho
+    injection ho with ho
+    subst ho
+    refine ⟨(pk.off - base) / 188, by omega, by omega, hle, hlen, by omega, by omega, hb, ?_⟩
+    have e : 188 * ((pk.off - base) / 188) = pk.off - base := by omega
+    rw [e]
+    have hb' := hb
+    rw [h4, window_of_window buf (pk.off - base) _ _ hle] at hb'
+    exact hb'
+  · rw [hn] at ho; cases ho
+
+/-- … and the converse direction composed the same way: a unit-start packet of `push(buf)` whose
+section start passes the processor's checks, has all `3 + section_length` bytes present and is not
+suppressed by the dedup layer yields a delivery whose bytes are the window of the caller's buffer
+at `188 * k + payload offset + 1 + pointer_field`. -/
+theorem section_fitting_first_packet_in_pushed_buffer (buf : Bytes) (base : Nat) (pks : List Pk)
+    (hf : frame buf base = .ok pks) (pk : Pk) (hpk : pk ∈ pks)
+    (cfg : Psi.Cfg) (hc : CfgOk cfg) (s : Psi.St) (hs : PsiInv (kindOf cfg) s)
+    (q : Lemmas.C03.Pl) (hq : plOf pk.bytes = some q) (hus : q.us = true)
+    (hok : startOk cfg ((q.bytes.drop 1).drop (byteD q.bytes 0)) = true)
+    (hfit : 3 + hdrLen ((q.bytes.drop 1).drop (byteD q.bytes 0))
+      ≤ ((q.bytes.drop 1).drop (byteD q.bytes 0)).length)
+    (hdd : cfg.dedup = true →
+      s.lastVersion ≠ some (versionOf ((q.bytes.drop 1).drop (byteD q.bytes 0)))) :
+    ∃ s' ds d k, Psi.consume cfg s pk.bytes = .ok (s', ds) ∧ d ∈ ds
+      ∧ pk.off = base + 188 * k
+      ∧ d.inplace = some (q.off + 1 + byteD q.bytes 0)
+      ∧ base ≤ pk.off + (q.off + 1 + byteD q.bytes 0)
+      ∧ pk.off + (q.off + 1 + byteD q.bytes 0) + d.bytes.length ≤ base + buf.length
+      ∧ d.bytes = (buf.drop (188 * k + (q.off + 1 + byteD q.bytes 0))).take d.bytes.length := by
+  obtain ⟨_, _, _, _, h5, _⟩ := frame_pk_props buf base pks hf pk hpk
+  obtain ⟨s', ds, d, h1, h2, h3, _, _⟩ :=
+    section_fitting_first_packet_delivered_in_place cfg hc s hs pk.bytes h5 q hq hus hok hfit hdd
+  obtain ⟨k, k1, _, _, _, k5, k6, _, k8⟩ :=
+    section_in_pushed_buffer buf base pks hf pk hpk cfg hc s hs s' ds h1 d h2 _ h3
+  exact ⟨s', ds, d, k, h1, h2, k1, h3, k5, k6, k8⟩
+
 /-! ## 3. retained state is bounded for arbitrary hostile input -/
 
 /-- the invariant, spelled out: at most 8192 table slots, and every PAT/PMT handler's reassembly
@@ -332,9 +414,10 @@ theorem retained_max_value : RETAINED_MAX = 8192 * (1 + 1024 + 2 * 1024) ∧ RET
 /-- **C19 (c).** For every configuration whose recorder scripts name only 13-bit PIDs and EVERY
 sequence of pushed byte strings (any number, any lengths, any contents): if the run completes,
 the filter table has at most 8192 slots, every reassembly buffer holds at most 1024 bytes, and the
-retained-memory measure (slots + buffer bytes + 2 KiB of fixed bitsets per PAT/PMT handler; the
-changeset is empty between packets) is at most the constant `RETAINED_MAX`, independent of the
-input. -/
+retained-memory measure (slots + buffer bytes + 2 KiB of fixed bitsets per PAT/PMT handler) is at
+most the constant `RETAINED_MAX`, independent of the input.  The measure `retained` OMITS the
+`FilterChangeset`: its `Vec` is empty between packets but keeps its capacity; see
+`retained'_bounded` below for the measure that includes it. -/
 theorem retained_bounded (cfg : App.Cfg) (pushes : List Bytes) (t : Tab App.Handler) (c : App.Ctx)
     (hs : ScriptOk cfg) (h : App.runApp cfg pushes = .ok (t, c)) :
     Bounded t ∧ retained t ≤ RETAINED_MAX := by
@@ -350,6 +433,144 @@ theorem retained_bounded_between_pushes (cfg : App.Cfg) (pushes : List Bytes)
   have hi := pushAll_inv pushes (App.init cfg) 0 (t, c) (init_inv cfg hs) h
   have hi' := push_inv (t, c) buf base (t', c') hi h'
   exact ⟨retained_le t hi.1, retained_le t' hi'.1⟩
+
+/-! ### 3b. the `FilterChangeset`
+
+`retained` above leaves out the `FilterChangeset` (`Vec<FilterChange>`; `apply` drains it but keeps
+its capacity).  The model has no capacity; what it has is the LENGTH of the change list each packet
+queues (`stepChg`).  We bound that length for every packet of every run and add the resulting
+high-water mark to the measure. -/
+
+/-- `stepChg tc pk` is the change list `specStep` applies: the same `ensure`, the same `consume`,
+returning the queued changes instead of applying them (compare `Lemmas.Demux.specStep_eq`) -/
+theorem stepChg_eq (tc : Tab App.Handler × App.Ctx) (pk : Pk) :
+    stepChg tc pk =
+      (ensure App.sem tc.1 tc.2 pk.pid >>= fun r =>
+        if pk.flagged then R.ok []
+        else match r.1.get pk.pid with
+          | none => R.panic "called `Option::unwrap()` on a `None` value"
+          | some h => App.consume h r.2 pk >>= fun x => R.ok x.2.2) := rfl
+
+theorem chg_max_value : MAX_ENTRIES = 253 ∧ CHG_MAX = 2 * (2 * MAX_ENTRIES) ∧ CHG_MAX = 1012 :=
+  ⟨rfl, rfl, rfl⟩
+
+/-- the extra invariants, spelled out: every PAT/PMT handler in the table remembers at most 253
+registered PIDs; recorder scripts (harness input) queue at most `CHG_MAX` changes per packet -/
+theorem regInv_iff (t : Tab App.Handler) :
+    RegInv t ↔ ∀ p h, t.get p = some h →
+      (∀ s reg, h = .pat s reg → reg.length ≤ 253) ∧
+      (∀ pid prog s reg, h = .pmt pid prog s reg → reg.length ≤ 253) := by
+  unfold RegInv RegOk MAX_ENTRIES
+  constructor
+  · intro h p hd hg
+    refine ⟨?_, ?_⟩
+    · intro s reg e; subst e; exact h p _ hg
+    · intro pid prog s reg e; subst e; exact h p _ hg
+  · intro h p hd hg
+    cases hd with
+    | pat s reg => exact (h p _ hg).1 s reg rfl
+    | pmt a b s reg => exact (h p _ hg).2 a b s reg rfl
+    | pes _ _ => exact Nat.zero_le _
+    | recorder _ => exact Nat.zero_le _
+
+theorem scriptLenOk_iff (cfg : App.Cfg) :
+    ScriptLenOk cfg ↔ ∀ k ops, (k, ops) ∈ cfg.script → ops.length ≤ 1012 := Iff.rfl
+
+/-- one section of at most 1024 bytes handed to `PatProcessor::section` queues at most
+`253 + reg.length` changes (at most `(1024 - 12) / 4 = 253` inserts, at most one removal per
+previously registered PID) and leaves at most 253 PIDs registered (or `reg` unchanged) -/
+theorem pat_section_changes (c : App.Ctx) (reg : List Nat) (data : Bytes) (c' : App.Ctx)
+    (reg' : List Nat) (chg : List (Change App.Handler)) (hd : data.length ≤ 1024)
+    (h : App.patSection c reg data = .ok (c', reg', chg)) :
+    chg.length ≤ 253 + reg.length ∧ (reg' = reg ∨ reg'.length ≤ 253) :=
+  let r := patSection_len c reg data c' reg' chg hd h
+  ⟨r.1, r.2.1⟩
+
+/-- the same for `PmtProcessor::section` (a PMT in fact carries at most `(1024 - 16) / 5 = 201`
+streams; the uniform constant 253 is used) -/
+theorem pmt_section_changes (c : App.Ctx) (pmtPid : Nat) (reg : List Nat) (data : Bytes) (c' : App.Ctx)
+    (reg' : List Nat) (chg : List (Change App.Handler)) (hd : data.length ≤ 1024)
+    (h : App.pmtSection c pmtPid reg data = .ok (c', reg', chg)) :
+    chg.length ≤ 253 + reg.length ∧ (reg' = reg ∨ reg'.length ≤ 253) :=
+  let r := pmtSection_len c pmtPid reg data c' reg' chg hd h
+  ⟨r.1, r.2.1⟩
+
+/-- **Changeset bound, one step.**  From a state satisfying `Bounded`, `RegInv`, `ScriptOk` and
+`ScriptLenOk`, the handler of a framed packet (188 bytes, 13-bit PID) queues at most
+`CHG_MAX = 1012` changes (at most two whole sections per packet, each at most 253 inserts and 253
+removals).  The bound is not claimed tight: the second section of a packet is delivered in place,
+hence shorter than 184 bytes (at most 42 entries), so about 800 is the true maximum. -/
+theorem changes_per_step_bounded (t : Tab App.Handler) (c : App.Ctx) (pk : Pk)
+    (chg : List (Change App.Handler)) (hb : Bounded t) (hr : RegInv t) (hs : ScriptOk c.cfg)
+    (hl : ScriptLenOk c.cfg) (hlen : pk.bytes.length = 188) (hpid : pk.pid ≤ 0x1fff)
+    (h : stepChg (t, c) pk = .ok chg) : chg.length ≤ CHG_MAX :=
+  stepChg_le (t, c) pk chg ⟨⟨hb, hs⟩, hr, hl⟩ ⟨hlen, by omega⟩ h
+
+/-- the extra invariants hold in every state reached by `runApp` (for configurations whose
+recorder scripts name 13-bit PIDs and queue at most `CHG_MAX` changes per packet) -/
+theorem regInv_reachable (cfg : App.Cfg) (pushes : List Bytes) (t : Tab App.Handler) (c : App.Ctx)
+    (hs : ScriptOk cfg) (hl : ScriptLenOk cfg) (h : App.runApp cfg pushes = .ok (t, c)) :
+    Bounded t ∧ RegInv t ∧ ScriptOk c.cfg ∧ ScriptLenOk c.cfg :=
+  let r := pushAll_inv2 pushes (App.init cfg) 0 (t, c) (init_inv2 cfg hs hl) h
+  ⟨r.1.1, r.2.1, r.1.2, r.2.2⟩
+
+/-- … so in every reachable state, every framed packet queues at most `CHG_MAX` changes -/
+theorem changes_per_packet_bounded (cfg : App.Cfg) (pushes : List Bytes) (t : Tab App.Handler)
+    (c : App.Ctx) (hs : ScriptOk cfg) (hl : ScriptLenOk cfg)
+    (h : App.runApp cfg pushes = .ok (t, c)) (pk : Pk) (chg : List (Change App.Handler))
+    (hlen : pk.bytes.length = 188) (hpid : pk.pid ≤ 0x1fff) (hc : stepChg (t, c) pk = .ok chg) :
+    chg.length ≤ CHG_MAX :=
+  let r := regInv_reachable cfg pushes t c hs hl h
+  changes_per_step_bounded t c pk chg r.1 r.2.1 r.2.2.1 r.2.2.2 hlen hpid hc
+
+/-- the changeset high-water mark, spelled out: the largest `stepChg` length over the steps of the
+run (steps after a panic do not exist and count 0) -/
+theorem chgHigh_nil (tc : Tab App.Handler × App.Ctx) : chgHigh tc [] = 0 := rfl
+
+theorem chgHigh_cons (tc : Tab App.Handler × App.Ctx) (pk : Pk) (rest : List Pk) :
+    chgHigh tc (pk :: rest) =
+      max (match stepChg tc pk with | .ok chg => chg.length | .panic _ => 0)
+        (match specStep App.sem tc pk with | .ok tc' => chgHigh tc' rest | .panic _ => 0) := rfl
+
+theorem chgHighAll_nil (tc : Tab App.Handler × App.Ctx) (base : Nat) : chgHighAll tc [] base = 0 := rfl
+
+theorem chgHighAll_cons (tc : Tab App.Handler × App.Ctx) (b : Bytes) (bs : List Bytes) (base : Nat) :
+    chgHighAll tc (b :: bs) base =
+      max (match frame b base with | .ok pks => chgHigh tc pks | .panic _ => 0)
+        (match push App.sem tc b base with
+         | .ok tc' => chgHighAll tc' bs (base + b.length)
+         | .panic _ => 0) := rfl
+
+/-- **Changeset bound, whole run.**  For every configuration as above and EVERY sequence of pushed
+byte strings, the high-water mark of the changeset length over all packets of all pushes
+(`chgHighAll`, which follows `push`/`specStep` packet by packet) is at most `CHG_MAX`. -/
+theorem chg_high_water_bounded (cfg : App.Cfg) (pushes : List Bytes) (hs : ScriptOk cfg)
+    (hl : ScriptLenOk cfg) : chgHighAll (App.init cfg) pushes 0 ≤ CHG_MAX :=
+  chgHighAll_le pushes (App.init cfg) 0 (init_inv2 cfg hs hl)
+
+/-- `retained` (which omits the `FilterChangeset`) plus `hw` entries of the changeset `Vec`:
+`hw` is to be read as the high-water mark of its length.  One unit of `t.length` / `hw` stands for
+one table slot / one queued `FilterChange`; buffer and bitset contributions are bytes, as in
+`retained`.  The `Vec`'s CAPACITY is within the allocator's growth policy of the high-water mark
+of its length; that policy is outside the model. -/
+def retained' (t : Tab App.Handler) (hw : Nat) : Nat := retained t + hw
+
+theorem retained'_eq (t : Tab App.Handler) (hw : Nat) :
+    retained' t hw = t.length + (t.map slotBytes).sum + hw := rfl
+
+/-- **C19 (c'), with the changeset.**  For every configuration whose recorder scripts name only
+13-bit PIDs and queue at most `CHG_MAX` changes per packet, and EVERY sequence of pushed byte
+strings: if the run completes in `(t, c)`, the measure `retained'` taken with the changeset
+high-water mark of the whole run is at most `RETAINED_MAX + CHG_MAX`, independent of the input. -/
+theorem retained'_bounded (cfg : App.Cfg) (pushes : List Bytes) (t : Tab App.Handler) (c : App.Ctx)
+    (hs : ScriptOk cfg) (hl : ScriptLenOk cfg) (h : App.runApp cfg pushes = .ok (t, c)) :
+    retained' t (chgHighAll (App.init cfg) pushes 0) ≤ RETAINED_MAX + CHG_MAX
+      ∧ RETAINED_MAX + CHG_MAX = 25175028 := by
+  have h1 := (retained_bounded cfg pushes t c hs h).2
+  have h2 := chg_high_water_bounded cfg pushes hs hl
+  refine ⟨?_, by decide⟩
+  unfold retained'
+  omega
 
 /-! ## 4. steady state performs no allocation-relevant operation -/
 
@@ -370,7 +591,13 @@ theorem quiescent_step_spec (s : Psi.St) (v : Nat) (q : Lemmas.C03.Pl)
       ∧ (Lemmas.C03.consumeSpec Psi.table s q.us q.bytes q.off).1.lastVersion = s.lastVersion :=
   quiescent_spec s v q hq hr
 
-/-- `stepAllocFree`, spelled out -/
+/-- `stepAllocFree`, spelled out.  It is a statement about the STATE before and after the step plus
+the change list: the table has the same number of slots, no tag was handed out (`nextTag`, bumped
+by every `construct`), every slot's PSI reassembly buffer has the same CONTENTS and `Buffering`
+state, and the handler queued no change.  It is not an operation trace: an operation that leaves
+these unchanged (re-writing identical bytes into `buf`, a `FixedBitSet::with_capacity` that is
+dropped again) would not falsify it.  The operation-level statement is `mayAlloc` (§5); transient
+allocations of the real code are observed only by the harness's counting allocator. -/
 theorem stepAllocFree_iff (tc : Tab App.Handler × App.Ctx) (pk : Pk) (tc' : Tab App.Handler × App.Ctx) :
     stepAllocFree tc pk tc' ↔
       (tc'.1.length = tc.1.length ∧ tc'.2.nextTag = tc.2.nextTag
@@ -409,9 +636,15 @@ theorem steady_preserved (t t' : Tab App.Handler) (pks : List Pk)
   fun pk hpk => steadyPk_congr t t' pk h (hs pk hpk)
 
 /-- **C19 (d).** Steady state (every packet's PID has a handler; every packet routed to a PAT/PMT
-handler is a repetition packet for a quiescent handler; no recorder script): a whole `push`
-performs no allocation-relevant operation — every step is `stepAllocFree` (no construct, no table
-growth, no buffer write, no queued change) — and the table is again in the same steady state. -/
+handler is a repetition packet for a quiescent handler; no recorder script): over a whole `push`
+every step is `stepAllocFree` — EXACTLY: after each step the table has the same length, `nextTag`
+is unchanged (no handler constructed), every slot's PSI buffer contents and `Buffering` state are
+unchanged, and the step's change list is `[]` — and the table is again in the same steady state
+(`slotKey`: same slot kinds, buffers, `Buffering` states and table versions).  This is a
+state-shape equality, see `stepAllocFree_iff`; that no step even REACHES an allocating operation of
+the model is `steady_state_no_mayAlloc` (§5).  Neither says anything about the allocator itself
+(transient allocations, `Vec` growth policy): that is what the harness's counting
+`#[global_allocator]` observes. -/
 theorem steady_state_no_alloc (t : Tab App.Handler) (c : App.Ctx) (buf : Bytes) (base : Nat)
     (pks : List Pk) (tcf : Tab App.Handler × App.Ctx) (hsc : c.cfg.script = [])
     (hf : frame buf base = .ok pks) (hst : Steady t pks)
@@ -455,6 +688,230 @@ theorem steady_state_all_pushes : ∀ (bufs : List Bytes) (t : Tab App.Handler) 
     obtain ⟨b1, b2, b3, _⟩ := ih t1 c1 _ tcf a7 hst1 h
     refine ⟨by rw [b1]; exact a2, by rw [b2]; exact a3, fun p => by rw [b3 p]; exact a5 p, ?_⟩
     intro p; unfold psiBuf; rw [b3 p, a5 p]
+
+/-! ## 5. operation level: no step of a steady push reaches an allocating operation
+
+`mayAlloc tc pk : Bool` is a function of the INPUTS of a dispatcher step (table, context, packet),
+not of its result.  It over-approximates "the step executes one of the model's operations behind
+which the Rust code allocates":
+(i) `add_pid_filter` (`construct` + `Filters::insert`) — the PID has no handler;
+(ii) a recorder with a script entry for this packet (queues changes; harness only);
+(iii) bytes reach the buffer layer of a PAT/PMT section consumer: continuation bytes while it is
+`Buffering` (`extend_from_slice`), or a section start that passes the processor and dedup layers
+(`start_*_section`: in-place delivery, or `clear` + `extend_from_slice`);
+(iv) a whole section is delivered to `PatProcessor/PmtProcessor::section`
+(`FixedBitSet::with_capacity`, `construct`, `FilterChangeset::insert/remove`) — every delivery
+passes through (iii), so (iii) covers it.
+`mayAlloc_false_step` says what `mayAlloc = false` means in the model; `steady_state_no_mayAlloc`
+that it is `false` on every step of a steady push. -/
+
+/-- `mayAlloc`, spelled out -/
+theorem mayAlloc_eq (t : Tab App.Handler) (c : App.Ctx) (pk : Pk) :
+    mayAlloc (t, c) pk =
+      (!t.contains pk.pid ||
+        (!pk.flagged &&
+          match t.get pk.pid with
+          | some (.pat s _) => psiMayAlloc s pk.bytes
+          | some (.pmt _ _ s _) => psiMayAlloc s pk.bytes
+          | some (.pes _ _) => false
+          | some (.recorder _) => (c.cfg.script.lookup (pk.off / 188)).isSome
+          | none => false)) := by
+  unfold mayAlloc
+  cases hg : t.get pk.pid with
+  | none => rfl
+  | some h => cases h <;> rfl
+
+theorem psiMayAlloc_eq (s : Psi.St) (p : Bytes) :
+    psiMayAlloc s p = (match plOf p with | none => false | some q => psiTouches s q) := rfl
+
+theorem contReaches_eq (s : Psi.St) :
+    contReaches s = (!s.ignoreRest && !s.dedupIgnore && s.remaining.isSome) := rfl
+
+/-- `psiTouches`, spelled out: for a payload without unit start, continuation bytes reach a
+`Buffering` buffer; for a unit start (whose `pointer_field` does not point past the payload),
+the `pointer_field` bytes do, or the section start after them (at least 3 bytes) passes the
+processor's checks and carries a `version_number` different from the remembered one -/
+theorem psiTouches_eq (s : Psi.St) (q : Lemmas.C03.Pl) :
+    psiTouches s q =
+      (if q.us then
+        if 0 < byteD q.bytes 0 ∧ (q.bytes.drop 1).length ≤ byteD q.bytes 0 then false
+        else
+          (decide (0 < byteD q.bytes 0) && contReaches s)
+          || (decide (3 ≤ ((q.bytes.drop 1).drop (byteD q.bytes 0)).length)
+              && startOk Psi.table ((q.bytes.drop 1).drop (byteD q.bytes 0))
+              && (s.lastVersion != some (versionOf ((q.bytes.drop 1).drop (byteD q.bytes 0)))))
+      else contReaches s) := rfl
+
+theorem psiQuiet_iff (s s' : Psi.St) :
+    PsiQuiet s s' ↔
+      ((s'.buf = s.buf ∧ s'.remaining = s.remaining ∧ s'.lastVersion = s.lastVersion)
+        ∨ (s'.buf = [] ∧ s'.remaining = none ∧ s'.lastVersion = none)) := Iff.rfl
+
+/-- meaning of `psiMayAlloc = false` for a PAT/PMT section consumer (state satisfying the C03
+invariant, 188-byte packet): `consume` does not panic, delivers NO section — so
+`PatProcessor/PmtProcessor::section`, the only place where a `FixedBitSet` is built, handlers are
+constructed and changes are queued, is not called — and the consumer's buffer, `Buffering` state
+and remembered version are unchanged, or it was reset (`Vec::clear`) -/
+theorem psiMayAlloc_false_consume (s : Psi.St) (p : Bytes) (hs : PsiInv .syntax s)
+    (hp : p.length = 188) (h : psiMayAlloc s p = false) :
+    ∃ s', Psi.consume Psi.table s p = .ok (s', []) ∧ PsiQuiet s s' :=
+  psi_quiet_consume s p hs hp h
+
+/-- `StepQuiet`, spelled out -/
+theorem stepQuiet_iff (tc : Tab App.Handler × App.Ctx) (pk : Pk) (tc' : Tab App.Handler × App.Ctx) :
+    StepQuiet tc pk tc' ↔
+      (tc.1.contains pk.pid = true ∧ stepChg tc pk = .ok [] ∧ tc'.2.nextTag = tc.2.nextTag
+        ∧ tc'.2.cfg = tc.2.cfg ∧ tc'.1.length = tc.1.length
+        ∧ ((pk.flagged = true ∧ tc' = tc) ∨
+           (pk.flagged = false ∧ ∃ h h', tc.1.get pk.pid = some h ∧ tc'.1 = tc.1.insert pk.pid h'
+              ∧ HandlerQuiet pk h h'))) := Iff.rfl
+
+theorem handlerQuiet_iff (pk : Pk) (h h' : App.Handler) :
+    HandlerQuiet pk h h' ↔
+      (match h with
+       | .pat s reg =>
+         ∃ s', h' = .pat s' reg ∧ Psi.consume Psi.table s pk.bytes = .ok (s', []) ∧ PsiQuiet s s'
+       | .pmt pid prog s reg =>
+         ∃ s', h' = .pmt pid prog s' reg ∧ Psi.consume Psi.table s pk.bytes = .ok (s', [])
+           ∧ PsiQuiet s s'
+       | .pes tag _ => ∃ f', h' = .pes tag f'
+       | .recorder tag => h' = .recorder tag) := by
+  cases h <;> exact Iff.rfl
+
+/-- **Meaning of `mayAlloc = false`.**  From a `Bounded` table, on a 188-byte packet, a successful
+step with `mayAlloc = false`: the PID already had a handler (no `construct`, no table growth);
+the change list is `[]`; no tag was handed out; a flagged packet leaves the state untouched;
+otherwise only the slot of `pk.pid` is rewritten, with a handler of the same kind and parameters
+whose section consumer (PAT/PMT) delivered no section and is `PsiQuiet`. -/
+theorem mayAlloc_false_step (t : Tab App.Handler) (c : App.Ctx) (pk : Pk)
+    (tc' : Tab App.Handler × App.Ctx) (hb : Bounded t) (hlen : pk.bytes.length = 188)
+    (hm : mayAlloc (t, c) pk = false) (h : specStep App.sem (t, c) pk = .ok tc') :
+    StepQuiet (t, c) pk tc' :=
+  Lemmas.C19.mayAlloc_false_step t c pk tc' hb hlen hm h
+
+/-- `runMayAlloc`, spelled out: some step of the run `pushSpec App.sem tc pks` has `mayAlloc` -/
+theorem runMayAlloc_nil (tc : Tab App.Handler × App.Ctx) : runMayAlloc tc [] = false := rfl
+
+theorem runMayAlloc_cons (tc : Tab App.Handler × App.Ctx) (pk : Pk) (rest : List Pk) :
+    runMayAlloc tc (pk :: rest) =
+      (mayAlloc tc pk ||
+        (match specStep App.sem tc pk with
+         | .ok tc' => runMayAlloc tc' rest
+         | .panic _ => false)) := rfl
+
+/-- one steady-state step -/
+theorem steady_step_no_mayAlloc (t : Tab App.Handler) (c : App.Ctx) (pk : Pk)
+    (hsc : c.cfg.script = []) (hst : SteadyPk t pk) : mayAlloc (t, c) pk = false :=
+  steady_mayAlloc_false t c pk hsc hst
+
+/-- **C19 (d), operation level.**  Steady state as in `steady_state_no_alloc`: for the packets
+`push(buf)` iterates over, NO step has `mayAlloc` — no step constructs a handler, is a scripted
+recorder, hands bytes to a `Buffering` buffer, lets a section start through to the buffer layer,
+or delivers a section to a table processor.  (`push` runs exactly these steps:
+`C06.push_refines_spec`.)  `mayAlloc` is a predicate on the model's operations; that the Rust code
+allocates nowhere else is the harness's observation, not a theorem. -/
+theorem steady_state_no_mayAlloc (t : Tab App.Handler) (c : App.Ctx) (buf : Bytes) (base : Nat)
+    (pks : List Pk) (hsc : c.cfg.script = []) (_hf : frame buf base = .ok pks)
+    (hst : Steady t pks) : runMayAlloc (t, c) pks = false :=
+  steady_run_mayAlloc_false pks t c hsc hst
+
+/-! ## 6. the definitions a reader has to trust, restated
+
+The predicates used above are defined in `Ts/Lemmas/C19*.lean`; each is restated here as a plain
+statement (`bounded_iff`, `scriptOk_iff`, `regInv_iff`, `scriptLenOk_iff`, `stepAllocFree_iff`,
+`repeatPkt_iff`, `steadyPk_iff`, `evInPacket_cont`, `evInPacket_begin`, `mayAlloc_eq`, … above;
+the remaining ones below). -/
+
+/-- heap bytes owned by a slot: reassembly buffer + two 1 KiB bitsets for PAT/PMT, else 0 -/
+theorem slotBytes_eq :
+    slotBytes none = 0
+    ∧ (∀ s reg, slotBytes (some (.pat s reg)) = s.buf.length + 2 * 1024)
+    ∧ (∀ pid prog s reg, slotBytes (some (.pmt pid prog s reg)) = s.buf.length + 2 * 1024)
+    ∧ (∀ tag f, slotBytes (some (.pes tag f)) = 0)
+    ∧ (∀ tag, slotBytes (some (.recorder tag)) = 0) :=
+  ⟨rfl, fun _ _ => rfl, fun _ _ _ _ => rfl, fun _ _ => rfl, fun _ => rfl⟩
+
+theorem retained_eq (t : Tab App.Handler) : retained t = t.length + (t.map slotBytes).sum := rfl
+
+theorem steady_iff (t : Tab App.Handler) (pks : List Pk) :
+    Steady t pks ↔ ∀ pk ∈ pks, SteadyPk t pk := Iff.rfl
+
+theorem quiescent_iff (s : Psi.St) (v : Nat) :
+    Quiescent s v ↔ (s.lastVersion = some v ∧ s.remaining = none) := Iff.rfl
+
+/-- `version_number` as the dedup layer reads it -/
+theorem versionOf_eq (ns : Bytes) : versionOf ns = (byteD ns 5 >>> 1) &&& 0b0001_1111 := rfl
+
+theorem startedHere_iff (cfg : Psi.Cfg) (pk : Bytes) (off : Nat) (d : Psi.Delivery) :
+    StartedHere cfg pk off d ↔
+      (startOk cfg ((pk.drop 1).drop (byteD pk 0)) = true
+        ∧ 3 + hdrLen ((pk.drop 1).drop (byteD pk 0)) ≤ ((pk.drop 1).drop (byteD pk 0)).length
+        ∧ d = ⟨((pk.drop 1).drop (byteD pk 0)).take (3 + hdrLen ((pk.drop 1).drop (byteD pk 0))),
+               some (off + 1 + byteD pk 0)⟩) := Iff.rfl
+
+theorem completedBy_iff (s : Psi.St) (data : Bytes) (d : Psi.Delivery) :
+    CompletedBy s data d ↔
+      ∃ n, s.remaining = some n ∧ n ≤ data.length ∧ d = ⟨s.buf ++ data.take n, none⟩ := Iff.rfl
+
+theorem contBytes_eq (us : Bool) (pk : Bytes) :
+    contBytes us pk = if us then (pk.drop 1).take (byteD pk 0) else pk := rfl
+
+theorem evRange_eq :
+    (∀ t bi, evRange (.esBegin t bi) = bi.pl) ∧ (∀ t off len, evRange (.esCont t off len) = some (off, len))
+    ∧ (∀ t, evRange (.esStart t) = none) ∧ (∀ t, evRange (.esEnd t) = none)
+    ∧ (∀ t, evRange (.esCcErr t) = none) :=
+  ⟨fun _ _ => rfl, fun _ _ _ => rfl, fun _ => rfl, fun _ => rfl, fun _ => rfl⟩
+
+/-- per-slot views used in the steady-state conclusions -/
+theorem slotKey_eq (t : Tab App.Handler) (p : Nat) :
+    slotKey t p = (t.get p).map fun h => (psiOf h).map fun s => (s.buf, s.remaining, s.lastVersion) := rfl
+
+theorem psiBuf_eq (t : Tab App.Handler) (p : Nat) :
+    psiBuf t p = (t.get p).map fun h => (psiOf h).map fun s => (s.buf, s.remaining) := by
+  unfold psiBuf slotKey psiKey
+  cases t.get p with
+  | none => rfl
+  | some h =>
+    cases hp : psiOf h with
+    | none => simp [hp]
+    | some s => simp [hp]
+
+theorem psiOf_eq :
+    (∀ s reg, psiOf (.pat s reg) = some s) ∧ (∀ pid prog s reg, psiOf (.pmt pid prog s reg) = some s)
+    ∧ (∀ tag f, psiOf (.pes tag f) = none) ∧ (∀ tag, psiOf (.recorder tag) = none) :=
+  ⟨fun _ _ => rfl, fun _ _ _ _ => rfl, fun _ _ => rfl, fun _ => rfl⟩
+
+theorem runAllocFree_nil (tc : Tab App.Handler × App.Ctx) : runAllocFree tc [] ↔ True := Iff.rfl
+
+theorem runAllocFree_cons (tc : Tab App.Handler × App.Ctx) (pk : Pk) (rest : List Pk) :
+    runAllocFree tc (pk :: rest) ↔
+      ∃ tc', specStep App.sem tc pk = .ok tc' ∧ stepAllocFree tc pk tc' ∧ runAllocFree tc' rest :=
+  Iff.rfl
+
+/-! ### relation to the C10 vocabulary
+
+C10 (`Ts/Lemmas/C10.lean`, `Ts/Props/C10.lean`) states its repetition hypotheses through the
+specification of a section transmission; C19's `RepeatPkt` only constrains the bytes the dedup
+layer reads.  The two `Quiescent` are the same predicate (argument order swapped), the two
+`versionOf` the same number, and every C10 repetition packet is a C19 repetition packet — so the
+steady-state theorems above apply to all traffic C10 speaks about.  (The converse fails in
+general: `RepeatPkt` does not ask for a complete well-formed transmission.) -/
+
+theorem quiescent_iff_c10 (s : Psi.St) (v : Nat) : Quiescent s v ↔ Lemmas.C10.Quiescent v s :=
+  Iff.rfl
+
+theorem versionOf_eq_c10 (ns : Bytes) : versionOf ns = Lemmas.C10.versionOf ns :=
+  Lemmas.C19.versionOf_eq_c10 ns
+
+theorem repeatPkt_of_c10 (v : Nat) (p : Bytes) (h : Lemmas.C10.RepPacket v p) : RepeatPkt v p :=
+  Lemmas.C19.repeatPkt_of_c10 v p h
+
+/-- C10's per-packet hypotheses (`Props.C10`: handler of the PID is a PAT/PMT handler quiescent at
+`v`, packet is a C10 repetition packet of version `v`) imply C19's `SteadyPk` -/
+theorem steadyPk_of_c10 (t : Tab App.Handler) (pk : Pk) (v : Nat) (h : App.Handler)
+    (hg : t.get pk.pid = some h) (hq : Lemmas.C10.QuiescentH v h)
+    (hp : Lemmas.C10.RepPacket v pk.bytes) : SteadyPk t pk :=
+  Lemmas.C19.steadyPk_of_c10 t pk v h hg hq hp
 
 /-! ## non-vacuity -/
 
@@ -505,5 +962,212 @@ theorem script_hypothesis_needed :
   intro h
   have : (9001 : Nat) ≤ 8192 := h.1
   omega
+
+
+/-! ### non-vacuity: in-place section in the pushed buffer -/
+
+set_option maxRecDepth 20000 in
+/-- `twoPkBuf` (a PID-5 packet, the PAT packet, 3 stray bytes) pushed after 1880 earlier bytes
+frames into two packets at global offsets 1880 and 2068 -/
+theorem twoPkBuf_frame : frame twoPkBuf 1880 =
+    .ok [⟨pid5Pkt, 1880, 5, false, false⟩, ⟨patPkt, 2068, 0, false, false⟩] := rfl
+
+/-- `section_in_pushed_buffer` applies: the PAT packet is the second packet of the push; a fresh
+PAT filter delivers its 16-byte section in place at packet offset 5, and the delivered bytes are
+the window `[193, 209)` of the caller's buffer (global range `[2073, 2089)`, inside
+`[1880, 1880 + 379)`) -/
+example : ∃ s' ds d, Psi.consume Psi.table {} patPkt = .ok (s', ds) ∧ d ∈ ds
+    ∧ d.inplace = some 5 ∧ d.bytes.length = 16
+    ∧ d.bytes = (twoPkBuf.drop (188 * 1 + 5)).take 16
+    ∧ 1880 ≤ 2068 + 5 ∧ 2068 + 5 + 16 ≤ 1880 + twoPkBuf.length := by
+  obtain ⟨s', ds, d, h1, h2, h3, h4, h5⟩ :=
+    section_fitting_first_packet_delivered_in_place Psi.table cfgOk_table {}
+      (Lemmas.C03.psiInv_of_none _ _ rfl) patPkt patPkt_len _ patPkt_plOf rfl
+      (by decide +kernel) (by decide +kernel) (by intro _; decide)
+  have e : hdrLen (patPkt.drop 5) = 13 := by decide +kernel
+  have e0 : byteD (patPkt.drop 4) 0 = 0 := by decide +kernel
+  simp only [e0, Nat.add_zero] at h3 h4 h5
+  rw [e] at h4 h5
+  obtain ⟨k, k1, _, _, _, k5, k6, _, k8⟩ :=
+    section_in_pushed_buffer twoPkBuf 1880 _ twoPkBuf_frame ⟨patPkt, 2068, 0, false, false⟩
+      (by simp) Psi.table cfgOk_table {} (Lemmas.C03.psiInv_of_none _ _ rfl) s' ds h1 d h2 5 h3
+  have hk : k = 1 := by
+    have : (2068 : Nat) = 1880 + 188 * k := k1
+    omega
+  subst hk
+  rw [h5] at k6 k8
+  exact ⟨s', ds, d, h1, h2, h3, h5, k8, k5, k6⟩
+
+/-! ### non-vacuity: a concrete run reaching steady state
+
+`nvSetup` = PAT (program 1 → PMT PID 0x1e0) + PMT (video PID 0x21, audio PID 0x22) + start of a PES
+packet on PID 0x21 (valid CRCs, default configuration).  `nvSteady` = PES continuation on 0x21 +
+PAT repetition + PMT repetition + start of the next PES packet on 0x21, all in ONE push. -/
+
+/-- `match r with | .ok a => f a | .panic _ => false` -/
+def chk {α : Type} (r : R α) (f : α → Bool) : Bool :=
+  match r with
+  | .ok a => f a
+  | .panic _ => false
+
+theorem chk_ok {α : Type} (r : R α) (f : α → Bool) (h : chk r f = true) :
+    ∃ a, r = .ok a ∧ f a = true := by
+  cases r with
+  | ok a => exact ⟨a, rfl, h⟩
+  | panic s => cases h
+
+/-- everything the non-vacuity theorem needs about the concrete run, as one Boolean -/
+def nvCheck : Bool :=
+  chk (App.runApp {} [nvSetup]) fun tc =>
+  chk (frame nvSetup 0) fun pks0 =>
+  chk (frame nvSteady 564) fun pks =>
+  chk (push App.sem tc nvSteady 564) fun tcf =>
+  chk (pushAll App.sem tc [nvSteady, nvSteady, nvSteady] 564) fun _ =>
+    tc.2.cfg.script.isEmpty && steadyB tc.1 pks
+    && pks.map (·.pid) == [0x21, 0, 0x1e0, 0x21]
+    && (tc.1.get 0).map handlerKind == some 0
+    && (tc.1.get 0x1e0).map handlerKind == some 1
+    && (tc.1.get 0x21).map handlerKind == some 2
+    && retained tcf.1 == 0x1e1 + 2 * (2 * 1024)
+    && chgHighAll (App.init {}) [nvSetup, nvSteady] 0 == 2
+    && runMayAlloc (App.init {}) pks0
+    && !steadyB (App.init {}).1 pks0
+
+set_option maxRecDepth 100000 in
+theorem nvCheck_true : nvCheck = true := by decide +kernel
+
+theorem nvSetup_length : nvSetup.length = 564 := by decide +kernel
+
+/-- **The steady-state theorems are not vacuous.**  After the push `nvSetup` (state `(t, c)`: PAT
+handler in slot 0, PMT handler in slot 0x1e0, PES handler in slot 0x21), the push `nvSteady` frames
+into four packets on PIDs `0x21, 0, 0x1e0, 0x21` — a PES continuation, a PAT repetition, a PMT
+repetition and a PES packet start in the same push — which satisfy `Steady t pks`; the push
+succeeds; hence (by `steady_state_no_alloc`, `steady_state_no_mayAlloc`, `steady_state_all_pushes`,
+`retained_bounded`, `retained'_bounded`) the listed conclusions hold for it.  By contrast the
+first push is not steady and has `mayAlloc` steps, and the two-push run has changeset high-water
+mark 2 (the PMT queues two inserts). -/
+theorem steady_state_instance :
+    ∃ t c pks0 pks tcf tcf3,
+      App.runApp {} [nvSetup] = .ok (t, c)
+      ∧ frame nvSteady 564 = .ok pks
+      ∧ pks.map (·.pid) = [0x21, 0, 0x1e0, 0x21]
+      ∧ (t.get 0).map handlerKind = some 0 ∧ (t.get 0x1e0).map handlerKind = some 1
+      ∧ (t.get 0x21).map handlerKind = some 2
+      -- the hypotheses of `steady_state_no_alloc`
+      ∧ c.cfg.script = [] ∧ Steady t pks
+      ∧ push App.sem (t, c) nvSteady 564 = .ok tcf
+      -- its conclusion
+      ∧ runAllocFree (t, c) pks ∧ tcf.1.length = t.length ∧ tcf.2.nextTag = c.nextTag
+      ∧ (∀ p, psiBuf tcf.1 p = psiBuf t p) ∧ (∀ p, slotKey tcf.1 p = slotKey t p)
+      ∧ Steady tcf.1 pks
+      -- `steady_state_no_mayAlloc`
+      ∧ runMayAlloc (t, c) pks = false
+      -- `steady_state_all_pushes` on three further steady pushes
+      ∧ pushAll App.sem (t, c) [nvSteady, nvSteady, nvSteady] 564 = .ok tcf3
+      ∧ tcf3.1.length = t.length ∧ tcf3.2.nextTag = c.nextTag
+      ∧ (∀ p, slotKey tcf3.1 p = slotKey t p) ∧ (∀ p, psiBuf tcf3.1 p = psiBuf t p)
+      -- `retained_bounded` / `retained'_bounded` on the two-push run
+      ∧ App.runApp {} [nvSetup, nvSteady] = .ok tcf
+      ∧ Bounded tcf.1 ∧ retained tcf.1 ≤ RETAINED_MAX ∧ retained tcf.1 = 0x1e1 + 2 * (2 * 1024)
+      ∧ chgHighAll (App.init {}) [nvSetup, nvSteady] 0 = 2
+      ∧ retained' tcf.1 (chgHighAll (App.init {}) [nvSetup, nvSteady] 0) ≤ RETAINED_MAX + CHG_MAX
+      -- the predicates discriminate: the first push is not steady and has `mayAlloc` steps
+      ∧ frame nvSetup 0 = .ok pks0 ∧ runMayAlloc (App.init {}) pks0 = true
+      ∧ steadyB (App.init {}).1 pks0 = false := by
+  obtain ⟨⟨t, c⟩, h1, h⟩ := chk_ok _ _ nvCheck_true
+  obtain ⟨pks0, h0, h⟩ := chk_ok _ _ h
+  obtain ⟨pks, h2, h⟩ := chk_ok _ _ h
+  obtain ⟨tcf, h3, h⟩ := chk_ok _ _ h
+  obtain ⟨tcf3, h4, h⟩ := chk_ok _ _ h
+  simp only [Bool.and_eq_true, beq_iff_eq, List.isEmpty_iff, Bool.not_eq_true'] at h
+  obtain ⟨⟨⟨⟨⟨⟨⟨⟨⟨b1, b2⟩, b3⟩, b4⟩, b5⟩, b6⟩, b7⟩, b8⟩, b9⟩, b10⟩ := h
+  have hst := steadyB_sound t pks b2
+  obtain ⟨a1, a2, a3, a4, a5, a6, _⟩ := steady_state_no_alloc t c nvSteady 564 pks tcf b1 h2 hst h3
+  have hma := steady_state_no_mayAlloc t c nvSteady 564 pks b1 h2 hst
+  have hall : ∀ b ∈ [nvSteady, nvSteady, nvSteady], ∀ bs pks', frame b bs = .ok pks' → Steady t pks' := by
+    intro b hb bs pks' hf
+    have : b = nvSteady := by simpa using hb
+    subst this
+    exact steady_of_frame_base t nvSteady 564 pks h2 hst bs pks' hf
+  obtain ⟨c1, c2, c3, c4⟩ := steady_state_all_pushes _ t c 564 tcf3 b1 hall h4
+  have hrun : App.runApp {} [nvSetup, nvSteady] = .ok tcf := by
+    have h1' : push App.sem (App.init {}) nvSetup 0 = .ok (t, c) := by
+      unfold App.runApp pushAll at h1
+      obtain ⟨tc1, e1, e2⟩ := R.bind_eq_ok h1
+      have := R.ok_inj e2
+      rw [e1, this]
+    unfold App.runApp pushAll
+    rw [h1']
+    simp only [R.ok_bind]
+    unfold pushAll
+    rw [nvSetup_length, Nat.zero_add, h3]
+    rfl
+  have hs0 : ScriptOk ({} : App.Cfg) := by intro k ops hm; cases hm
+  have hl0 : ScriptLenOk ({} : App.Cfg) := by intro k ops hm; cases hm
+  obtain ⟨d1, d2⟩ := retained_bounded {} _ tcf.1 tcf.2 hs0 hrun
+  have d3 := (retained'_bounded {} _ tcf.1 tcf.2 hs0 hl0 hrun).1
+  exact ⟨t, c, pks0, pks, tcf, tcf3, h1, h2, b3, b4, b5, b6, b1, hst, h3, a1, a2, a3, a4, a5, a6,
+    hma, h4, c1, c2, c3, c4, hrun, d1, d2, b7, b8, d3, h0, b9, b10⟩
+
+/-! ### non-vacuity: the remaining new theorems -/
+
+/-- `section_fitting_first_packet_in_pushed_buffer` applies to the same packet -/
+example : ∃ s' ds d k, Psi.consume Psi.table {} patPkt = .ok (s', ds) ∧ d ∈ ds
+    ∧ (2068 : Nat) = 1880 + 188 * k ∧ d.inplace = some (4 + 1 + byteD (patPkt.drop 4) 0)
+    ∧ d.bytes = (twoPkBuf.drop (188 * k + (4 + 1 + byteD (patPkt.drop 4) 0))).take d.bytes.length := by
+  obtain ⟨s', ds, d, k, h1, h2, h3, h4, _, _, h7⟩ :=
+    section_fitting_first_packet_in_pushed_buffer twoPkBuf 1880 _ twoPkBuf_frame
+      ⟨patPkt, 2068, 0, false, false⟩ (by simp) Psi.table cfgOk_table {}
+      (Lemmas.C03.psiInv_of_none _ _ rfl) _ patPkt_plOf rfl
+      (by decide +kernel) (by decide +kernel) (by intro _; decide)
+  exact ⟨s', ds, d, k, h1, h2, h3, h4, h7⟩
+
+/-- `changes_per_step_bounded` applies to the first PAT packet from the initial state (all four
+invariants hold there); that step queues exactly one change (the PMT handler for PID 0x1e0) -/
+example : ∃ chg, stepChg (App.init {}) patPk = .ok chg ∧ chg.length = 1 ∧ chg.length ≤ CHG_MAX := by
+  have hs0 : ScriptOk ({} : App.Cfg) := by intro k ops hm; cases hm
+  have hl0 : ScriptLenOk ({} : App.Cfg) := by intro k ops hm; cases hm
+  obtain ⟨chg, h1, h2⟩ := chk_ok (stepChg (App.init {}) patPk) (fun chg => chg.length == 1)
+    (by decide +kernel)
+  have hi := init_inv2 {} hs0 hl0
+  exact ⟨chg, h1, by simpa using h2,
+    changes_per_step_bounded (App.init {}).1 (App.init {}).2 patPk chg hi.1.1 hi.2.1 hi.1.2 hi.2.2
+      patPkt_len (by decide) h1⟩
+
+theorem steadyTab_bounded : Bounded steadyTab := by
+  rw [bounded_iff]
+  refine ⟨by decide, ?_⟩
+  intro p h hg
+  have hp : p = 0 := by
+    have := Tab.lt_of_get_some steadyTab p h hg
+    have : steadyTab.length = 1 := rfl
+    omega
+  subst hp
+  have e : steadyTab.get 0 = some (.pat { lastVersion := some 0 } [0x1e0]) := rfl
+  rw [e] at hg
+  injection hg with hg
+  subst hg
+  refine ⟨?_, ?_⟩
+  · intro s reg e
+    injection e with e1 _
+    subst e1
+    exact ⟨Lemmas.C03.psiInv_of_none _ _ rfl, by decide⟩
+  · intro pid prog s reg e; cases e
+
+/-- `mayAlloc_false_step` applies to the repetition step on `steadyTab`: `mayAlloc = false`, the
+step succeeds, and it is `StepQuiet` -/
+example : mayAlloc (steadyTab, { cfg := {} }) patPk = false
+    ∧ ∃ tc', specStep App.sem (steadyTab, { cfg := {} }) patPk = .ok tc'
+      ∧ StepQuiet (steadyTab, { cfg := {} }) patPk tc' := by
+  have hm := steady_step_no_mayAlloc steadyTab { cfg := {} } patPk rfl steadyTab_steady
+  obtain ⟨s', hs'⟩ := pat_quiescent_specStep steadyTab { cfg := {} } patPk { lastVersion := some 0 }
+    [0x1e0] 0 rfl rfl patPkt_len ⟨rfl, rfl⟩ patPkt_repeat
+  exact ⟨hm, _, hs', mayAlloc_false_step steadyTab _ patPk _ steadyTab_bounded patPkt_len hm hs'⟩
+
+/-- `mayAlloc` is not trivially `false`: the same packet on a FRESH PAT handler (the initial
+state) reaches the buffer layer, and a packet on an unknown PID constructs a handler -/
+example : mayAlloc (App.init {}) patPk = true
+    ∧ mayAlloc (App.init {}) ⟨pid5Pkt, 0, 5, false, false⟩ = true := by
+  constructor <;> decide +kernel
 
 end Ts.Props.C19
